@@ -190,6 +190,9 @@ func (w *World) setup() {
 			n.timerBase = time.Duration(cfg.TimerBaseMs[i]) * time.Millisecond
 		}
 		n.useRealTimer = cfg.RealTimer
+		if cfg.RealTimer {
+			n.timerBase += time.Duration(i) * time.Microsecond
+		}
 		w.nodes = append(w.nodes, n)
 	}
 }
